@@ -566,6 +566,21 @@ pub fn one_case(ctx: &Ctx, case: u64, l: &mut Local) {
                     if let Outcome::Ok(mut h) = h {
                         let o = api::present(&mut h, &sel, None);
                         p.judge("create_presentation", &o, &|| json!({"claims": s.u, "strategy": s.strat.describe(), "holder_input_is_narrowed": round > 0, "selection": sel, "holder_input": current}));
+                        // key-binding arguments of every kind: unknown / mismatching algorithm names,
+                        // keys of another family, only some of nonce / aud / key given
+                        if round == 0 {
+                            let alg_s = (*r.pick(&["", "none", "NOPE256", "HS256", "ES384", "RS256", "EdDSA", "ES256", "es256"])).to_string();
+                            let key = match r.below(3) {
+                                0 => None,
+                                1 => Some((Alg::ES256, 0)),
+                                _ => Some((Alg::EdDSA, 0)),
+                            };
+                            let nonce = if r.chance(80) { Some("n\u{0}~.".to_string()) } else { None };
+                            let aud = if r.chance(80) { Some(String::new()) } else { None };
+                            let sa = if r.chance(85) { Some(alg_s.clone()) } else { None };
+                            let o = api::present_raw(&mut h, &json!({}), nonce, aud, key, sa);
+                            p.judge("create_presentation(kb args)", &o, &|| json!({"sign_alg": alg_s, "key": format!("{key:?}")}));
+                        }
                         // narrow: next round's holder is built from a partial presentation
                         let narrow = gen::gen_selection(&mut r, &s.u, gen::SelKind::RandomSparse);
                         if let Outcome::Ok(np) = api::present(&mut h, &narrow, None) {
